@@ -126,7 +126,7 @@ def scripts_for(dom, rng):
         out = []
         for i in range(8):
             out.append({"tid": 99400000 + i, "kind": "dispatch", "threads": 4, "rounds": 2,
-                        "systems": [{"shape": s, "deps": ([0] if j == 2 else []), "spin": 2} for j, s in enumerate([1, 0, 3, 5, 7])]})
+                        "systems": [{"shape": s, "deps": ([0] if j == 2 else []), "spin": 2} for j, s in enumerate([1, 0, 3, 5, 7, 6, 11])]})
         return out, "Dispatch_Trace"
     if dom == "sl":
         from lib import saveload
@@ -168,7 +168,13 @@ def main():
                     continue
                 val = get(ev, path)
                 # (World::is_alive is recorded as 0 / 1, 2 = not asked)
-                m = [1 - x if x in (0, 1) else x for x in val] if label == "obs.walive" else mutate(val)
+                if label == "obs.walive":
+                    m = [1 - x if x in (0, 1) else x for x in val]
+                elif label == "made" and len(val) > 1:
+                    # (a created handle reported twice; a record that goes missing cannot be noticed)
+                    m = val[:-1] + [dict(val[-1], h=val[0]["h"])]
+                else:
+                    m = mutate(val)
                 if m == val:
                     continue
                 if m is None:
